@@ -50,7 +50,7 @@ EXPECTED_COUNTERS = ['probe:no_reply', 'sender:thread_execute', 'probe:terminati
                      'probe:reply_error', 'persister:none', 'persister:memory', 'persister:pickle', 'loader:custom',
                      'via:loopcomm', 'via:direct']
 PROGRAM_CFG = {'max_steps': 4, 'p_async': 0.6, 'max_awaits': 1, 'rets': ['value', 'stop', 'unsuccessful', 'raise', 'kill'],
-               'effects': ['out', 'status'], 'p_wait': 0.55, 'kwargs': True, 'raw_kill': True}
+               'effects': ['out', 'status', 'callsoon'], 'p_wait': 0.55, 'kwargs': True, 'raw_kill': True}
 
 
 def systematic(tier):
@@ -133,6 +133,7 @@ def random_case(rng, tier):
             'via': rng.choice(['loopcomm', 'loopcomm', 'direct']), 'ops': ops, 'load_context': rng.random() < 0.5,
             'sender': rng.choice(['body', 'async', 'thread']),
             'eager': rng.random() < 0.4,
+            'no_loop_argument': rng.random() < 0.4,
             'no_reply': rng.random() < 0.2,  # controllers are told not to wait for an answer: the task is carried out all the same
             'fault': rng.choice([None, None, None, None, ['hook:on_finished', 0], ['hook:on_terminated', 0], ['hook:on_finished:post', 0],
                                  ['hook:on_killed', 0]]),
@@ -212,7 +213,9 @@ class Harness:
         self.communicator = comm.SimCommunicator(self.loop)
         # half of the cases also hand the launcher a load context of their own (the loader must still be the one used)
         load_context = plumpy.LoadSaveContext(marker='from-case') if self.case.get('load_context') else None
-        self.launcher = plumpy.ProcessLauncher(loop=self.loop, persister=self.persister, load_context=load_context,
+        # (the loop is optional: without it the launcher and the processes it makes live on the current event loop)
+        self.launcher = plumpy.ProcessLauncher(loop=None if self.case.get('no_loop_argument') else self.loop,
+                                               persister=self.persister, load_context=load_context,
                                                loader=self.loader)
         self.loop_comm = plumpy.wrap_communicator(self.communicator, self.loop)
         self.loop_comm.add_task_subscriber(self.launcher, identifier='launcher')
